@@ -4,7 +4,7 @@ CONTRACT_MODULES = ['contracts.utils_c', 'contracts.ersatz_c']
 FUNCTIONS = ['tangermeme.ersatz.substitute', 'tangermeme.ersatz.insert', 'tangermeme.ersatz.delete',
              'tangermeme.ersatz.multisubstitute', 'tangermeme.ersatz.randomize', 'tangermeme.utils._validate_input']
 BOUNDED = 'bounded.C01'
-BOUNDED_BUDGET = {'quick': 60, 'thorough': 900}
+BOUNDED_BUDGET = {'quick': 120, 'thorough': 900}
 LEVEL = 'proof'
 EXPLANATION = ("three-sided contracts (exact edit / raises-iff / acceptance / one-hot output / empty frame) on the real "
                "ersatz functions, every obligation generated from the current AST and discharged by z3 for all tensor sizes, "
